@@ -51,7 +51,18 @@ func (doc *Document) GenerateOutput(textOnly bool) string {
 			continue
 		}
 
-		buffer.WriteString(e.GenerateOutput(textOnly))
+		output := e.GenerateOutput(textOnly)
+
+		// Two bare text runs emitted back to back (text blocks inside one list item,
+		// quote or pre are rendered without a wrapper of their own) would be read
+		// as one word where they meet: keep them apart.
+		if !textOnly && output != "" && output[0] != '<' && buffer.Len() > 0 {
+			if last := buffer.Bytes()[buffer.Len()-1]; last != '>' && last != ' ' && last != '\n' {
+				buffer.WriteString(" ")
+			}
+		}
+
+		buffer.WriteString(output)
 		if textOnly {
 			buffer.WriteString("\n")
 		}
